@@ -104,6 +104,12 @@ func main() {
 		exit(cmdReplay(os.Args[2:]))
 	case "selftest":
 		exit(cmdSelftest(os.Args[2:]))
+	case "gen-sentences":
+		_, ss := generateGrammarSentences("x")
+		for _, q := range ss {
+			fmt.Println(q)
+		}
+		exit(0)
 	default:
 		usage()
 	}
@@ -187,6 +193,19 @@ func overlayFor(files []string) (map[string][]byte, map[string]string, error) {
 			real[v] = p
 			continue
 		}
+		if strings.HasPrefix(f, "gen:grammar:") {
+			// derived from /repo's grammar on every run
+			rel := strings.TrimPrefix(f, "gen:grammar:")
+			src, _ := generateGrammarSentences(filepath.Base(filepath.Dir(rel)))
+			p := filepath.Join(workDir(), filepath.Base(rel))
+			if err := os.WriteFile(p, []byte(src), 0o644); err != nil {
+				return nil, nil, err
+			}
+			v := filepath.Join(repoRoot, rel)
+			ov[v] = []byte(src)
+			real[v] = p
+			continue
+		}
 		p := filepath.Join(verifRoot, "harness", f)
 		b, err := os.ReadFile(p)
 		if err != nil {
@@ -202,9 +221,19 @@ func overlayFor(files []string) (map[string][]byte, map[string]string, error) {
 // generateCorpus extracts the "-- case:" queries of the repository's translation corpus.
 func generateCorpus(pkgName string) string {
 	dir := filepath.Join(repoRoot, "cypher", "models", "pgsql", "test", "translation_cases")
-	ents, _ := os.ReadDir(dir)
 	var sb strings.Builder
 	fmt.Fprintf(&sb, "//go:build verif\n\npackage %s\n\n// generated from %s on every run\nvar verifCorpus = []string{\n", pkgName, dir)
+	for _, q := range corpusQueries() {
+		fmt.Fprintf(&sb, "\t%q,\n", q)
+	}
+	sb.WriteString("}\n")
+	return sb.String()
+}
+
+func corpusQueries() []string {
+	dir := filepath.Join(repoRoot, "cypher", "models", "pgsql", "test", "translation_cases")
+	ents, _ := os.ReadDir(dir)
+	var out []string
 	seen := map[string]bool{}
 	for _, e := range ents {
 		if !strings.HasSuffix(e.Name(), ".sql") {
@@ -219,13 +248,12 @@ func generateCorpus(pkgName string) string {
 				q = strings.TrimSpace(q)
 				if q != "" && !seen[q] {
 					seen[q] = true
-					fmt.Fprintf(&sb, "\t%q,\n", q)
+					out = append(out, q)
 				}
 			}
 		}
 	}
-	sb.WriteString("}\n")
-	return sb.String()
+	return out
 }
 
 type harnessResult struct {
@@ -387,6 +415,9 @@ func cmdRun(args []string) int {
 			if e, bad := skippedFiles[strings.TrimPrefix(f, "gen:corpus:")]; bad {
 				skip = e
 			}
+			if e, bad := skippedFiles[strings.TrimPrefix(f, "gen:grammar:")]; bad {
+				skip = e
+			}
 		}
 		if skip != "" {
 			hr.Skipped = skip
@@ -540,6 +571,19 @@ func cmdRun(args []string) int {
 			fmt.Printf("  probe accepted under the default context: %s\n", hr.ProbeAccepted[i])
 			exit = max(exit, 1)
 			extraViolations++
+		}
+	}
+	if ps.ID == "C07" && *only == "" {
+		hr, complete := runHornC07(pg)
+		extraCoverage["grammar_coverage_H2"] = hr
+		fmt.Printf("fixpoint C07.H2: %d grammar rules, %d reported unsupported, %d Horn clauses, %d queries: %d rules can occur in an accepted derivation (z3 datalog, %.2fs); %d sentences (%d accepted); reachable rules no accepted sentence exercises=%d; solver/parser inconsistencies=%d\n",
+			hr.Rules, len(hr.Reported), hr.Clauses, hr.Queries, len(hr.Reachable), hr.SolverS, hr.Sentences, hr.Accepted, len(hr.NotExercised), len(hr.Inconsistent))
+		for _, n := range hr.Notes {
+			fmt.Println("  note C07.H2:", n)
+		}
+		if !complete {
+			fmt.Printf("  NOT-EXHAUSTIVE C07.H2: not exercised=%v inconsistent=%v\n", hr.NotExercised, hr.Inconsistent)
+			extraExhaustive = false
 		}
 	}
 	writeEvidence(ps, *tier, seed, results, time.Since(t0), tLoad)
